@@ -143,6 +143,30 @@ Theorem id_input_injective : forall uuid5 prefs hp ty contrib obj1 obj2 d1 d2 i1
 Proof. exact id_input_injective_proof. Qed.
 Print Assumptions id_input_injective.
 
+(* the hypotheses of id_input_injective are satisfiable with nested dictionaries and timestamps:
+   two network-traffic-like objects that differ in one nested extension value *)
+Definition ex_obj (port : Z) : list (ustring * pval) :=
+  [(u "start", PStamp Timestamp.Pad4 Timestamp.PAny Timestamp.CExact 63082281600123000);
+   (u "protocols", PList [PStr (u "tcp"); PStr (u "http")]);
+   (u "extensions", PDict [(u "socket-ext", PDict [(u "address_family", PStr (u "AF_INET"));
+                                                   (u "options", PDict [(u "SO_RCVBUF", PInt port)])])]);
+   (u "is_active", PBool false)].
+Definition ex_contrib : list ustring := [u "start"; u "end"; u "protocols"; u "extensions"].
+
+Example id_input_injective_hyps_satisfiable :
+  exists m1 m2 d1 d2 i1 i2,
+    project gen_hash_prefs gen_hash_else ex_contrib (ex_obj 8192) [] = IOk m1 /\
+    project gen_hash_prefs gen_hash_else ex_contrib (ex_obj 4096) [] = IOk m2 /\
+    gen_id (fun d => d) gen_hash_prefs gen_hash_else (u "network-traffic") ex_contrib (ex_obj 8192) = IdDet d1 i1 /\
+    gen_id (fun d => d) gen_hash_prefs gen_hash_else (u "network-traffic") ex_contrib (ex_obj 4096) = IdDet d2 i2 /\
+    nums_wf (JObj m1) /\ nums_wf (JObj m2) /\ json_of (JObj m1) <> json_of (JObj m2) /\ d1 <> d2.
+Proof.
+  do 6 eexists. split; [vm_compute; reflexivity|]. split; [vm_compute; reflexivity|].
+  split; [vm_compute; reflexivity|]. split; [vm_compute; reflexivity|].
+  split; [repeat constructor; discriminate|]. split; [repeat constructor; discriminate|].
+  split; vm_compute; discriminate.
+Qed.
+
 (* SHA-1 collision freedom cannot be proved: it is the hypothesis uuid5 d1 <> uuid5 d2 *)
 Theorem id_distinct_partial : forall uuid5 prefs hp ty contrib obj1 obj2 d1 d2 i1 i2,
   gen_id uuid5 prefs hp ty contrib obj1 = IdDet d1 i1 -> gen_id uuid5 prefs hp ty contrib obj2 = IdDet d2 i2 ->
